@@ -224,7 +224,7 @@ def check_lengths(ctx):
         else:
             ctx.ob('R3', f_, b, None, 'construction of the bin edges not recognised')
     length = env.get('length')
-    lin = linear(length) if length is not None else None
+    lin = linear(expand(length, def_map(fi.node), keep=('bins',))) if length is not None else None
     ok = lin is not None and lin[0] == {'len(bins)': 1} and lin[1] == 1
     ctx.ob('R3', fi, length if length is not None else 'length', True if ok else (False if lin is not None else None),
            'accumulator length = len(bins) + 1 (bins 0..len(bins))' if ok else
